@@ -1,11 +1,487 @@
 package main
 
 import (
+	"encoding/json"
+	"flag"
 	"fmt"
+	"go/token"
+	"os"
+	"path/filepath"
+	"sort"
+	"strconv"
+	"strings"
+	"time"
 
-	_ "golang.org/x/tools/go/packages"
-	_ "golang.org/x/tools/go/ssa"
-	_ "golang.org/x/tools/go/ssa/ssautil"
+	"golang.org/x/tools/go/packages"
+	"golang.org/x/tools/go/ssa"
+	"golang.org/x/tools/go/ssa/ssautil"
 )
 
-func main() { fmt.Println("stunvc") }
+var (
+	repoDir  = "/repo"
+	verifDir = "/verif"
+)
+
+const (
+	pkgStun = "github.com/pion/stun/v3"
+	pkgHmac = "github.com/pion/stun/v3/internal/hmac"
+)
+
+func loadProgram(tags string) (*Program, error) {
+	fset := token.NewFileSet()
+	cfg := &packages.Config{
+		Mode:       packages.LoadAllSyntax,
+		Dir:        repoDir,
+		Fset:       fset,
+		BuildFlags: []string{"-tags=" + tags},
+		Env: append(os.Environ(), "GOFLAGS=-mod=mod", "GOPROXY=off", "GOSUMDB=off", "GOTOOLCHAIN=local",
+			"GOCACHE="+filepath.Join(verifDir, "out", "gocache")),
+	}
+	initial, err := packages.Load(cfg, ".", "./internal/hmac")
+	if err != nil {
+		return nil, err
+	}
+	for _, p := range initial {
+		for _, e := range p.Errors {
+			return nil, fmt.Errorf("package %s does not build: %v", p.PkgPath, e)
+		}
+	}
+	prog, pkgs := ssautil.AllPackages(initial, ssa.GlobalDebug)
+	prog.Build()
+	p := &Program{prog: prog, fset: fset, pkgs: map[string]*ssa.Package{}, cs: map[string]*ContractSet{}, tags: tags,
+		verified: map[string]bool{pkgStun: true, pkgHmac: true}, infos: map[*ssa.Function]*fnInfo{},
+		strIDs: map[string]int64{}, typeIDs: map[string]int64{}, errIDs: map[string]int64{},
+		trusted: map[string]bool{}, transp: map[string]bool{}}
+	for _, sp := range pkgs {
+		if sp != nil {
+			p.pkgs[sp.Pkg.Path()] = sp
+		}
+	}
+	for pkg, file := range map[string]string{pkgStun: "verif_contracts.go", pkgHmac: "internal/hmac/verif_contracts.go"} {
+		cs := newContractSet()
+		path := filepath.Join(repoDir, file)
+		if _, err := os.Stat(path); err == nil {
+			if err := cs.parseFile(path); err != nil {
+				return nil, err
+			}
+		}
+		p.cs[pkg] = cs
+	}
+	p.spec = newContractSet()
+	specs, _ := filepath.Glob(filepath.Join(verifDir, "spec", "*.spec"))
+	sort.Strings(specs)
+	for _, f := range specs {
+		if err := p.spec.parseFile(f); err != nil {
+			return nil, err
+		}
+	}
+	return p, nil
+}
+
+// functions returns the SSA functions of the verified packages keyed by contract key.
+func (p *Program) functions(pkg string) map[string]*ssa.Function {
+	out := map[string]*ssa.Function{}
+	sp := p.pkgs[pkg]
+	if sp == nil {
+		return out
+	}
+	for fn := range ssautil.AllFunctions(p.prog) {
+		if fn.Pkg != sp || fn.Synthetic != "" {
+			continue
+		}
+		_, k := funcKey(fn)
+		out[k] = fn
+	}
+	return out
+}
+
+type funcReport struct {
+	Key         string   `json:"function"`
+	Tags        string   `json:"tags"`
+	Paths       int      `json:"paths"`
+	Obligations int      `json:"obligations"`
+	Errors      []string `json:"errors,omitempty"`
+}
+
+type runResult struct {
+	obs     []*Obligation
+	smokes  []*smoke
+	funcs   []funcReport
+	errs    []string
+	trusted map[string]bool
+	transp  map[string]bool
+	smoke   []string
+}
+
+func hasProp(ps []string, p string) bool {
+	for _, q := range ps {
+		if q == p {
+			return true
+		}
+	}
+	return false
+}
+
+// generate runs the VC generator for all functions whose contract mentions the property.
+func generate(p *Program, property string, onlyFunc string) *runResult {
+	rr := &runResult{trusted: p.trusted, transp: p.transp}
+	for _, pkg := range []string{pkgStun, pkgHmac} {
+		cs := p.cs[pkg]
+		fns := p.functions(pkg)
+		var keys []string
+		for k := range cs.Funcs {
+			keys = append(keys, k)
+		}
+		sort.Strings(keys)
+		for _, k := range keys {
+			fc := cs.Funcs[k]
+			if onlyFunc != "" && k != onlyFunc {
+				continue
+			}
+			if property != "" && !fc.AllProps[property] {
+				continue
+			}
+			fn, ok := fns[k]
+			if !ok {
+				// interface / dynamic-call contracts have no body; anything else is an error
+				if strings.Count(k, ".") >= 1 && !strings.HasPrefix(k, "(") && isDynContractKey(p, pkg, k) {
+					continue
+				}
+				rr.errs = append(rr.errs, fmt.Sprintf("contract for %s: no such function in %s (tags %s)", k, pkg, p.tags))
+				continue
+			}
+			if fc.Trusted {
+				continue
+			}
+			x := p.verify(fn, fc)
+			rep := funcReport{Key: k, Tags: p.tags, Paths: x.paths, Errors: x.errs}
+			for _, ob := range x.obs {
+				if property == "" || hasProp(ob.Props, property) {
+					rr.obs = append(rr.obs, ob)
+					rep.Obligations++
+				}
+			}
+			for _, e := range x.errs {
+				rr.errs = append(rr.errs, k+": "+e)
+			}
+			rr.smokes = append(rr.smokes, x.smokes...)
+			rr.funcs = append(rr.funcs, rep)
+		}
+	}
+	return rr
+}
+
+// isDynContractKey: keys like "Setter.AddTo" (interface method) or "(*Message).ForEach.f" (func-valued parameter).
+func isDynContractKey(p *Program, pkg, k string) bool {
+	sp := p.pkgs[pkg]
+	if sp == nil {
+		return false
+	}
+	parts := strings.Split(k, ".")
+	if obj := sp.Pkg.Scope().Lookup(parts[0]); obj != nil {
+		if _, ok := obj.Type().Underlying().(interface{ NumMethods() int }); ok {
+			return true
+		}
+		return true // named func type etc.
+	}
+	// "<func key>.<param>"
+	fns := p.functions(pkg)
+	if i := strings.LastIndex(k, "."); i > 0 {
+		if _, ok := fns[k[:i]]; ok {
+			return true
+		}
+	}
+	return strings.HasPrefix(k, "func.")
+}
+
+type evidence struct {
+	PropertyID  string                 `json:"property_id"`
+	Tier        string                 `json:"tier"`
+	Seed        int                    `json:"seed"`
+	Level       string                 `json:"level"`
+	Coverage    map[string]interface{} `json:"coverage"`
+	Assumptions []string               `json:"assumptions"`
+	WallS       float64                `json:"wall_s"`
+	Violations  int                    `json:"violations"`
+}
+
+func main() {
+	if len(os.Args) < 2 {
+		fmt.Fprintln(os.Stderr, "usage: stunvc check|dump ...")
+		os.Exit(2)
+	}
+	switch os.Args[1] {
+	case "check":
+		os.Exit(cmdCheck(os.Args[2:]))
+	case "dump":
+		os.Exit(cmdDump(os.Args[2:]))
+	default:
+		fmt.Fprintln(os.Stderr, "unknown command", os.Args[1])
+		os.Exit(2)
+	}
+}
+
+var tagSets = map[string][]string{
+	"C01": {"verif", "verif,debug"}, "C04": {"verif", "verif,debug"}, "C05": {"verif", "verif,debug"},
+	"C07": {"verif", "verif,debug"}, "C09": {"verif", "verif,debug"},
+}
+
+func cmdCheck(args []string) int {
+	fs := flag.NewFlagSet("check", flag.ExitOnError)
+	property := fs.String("property", "", "property id")
+	tier := fs.String("tier", "quick", "quick|thorough")
+	only := fs.String("func", "", "restrict to one function (debugging)")
+	verbose := fs.Bool("v", false, "verbose")
+	noEvidence := fs.Bool("no-evidence", false, "do not write the evidence file")
+	timeout := fs.Int("timeout", 0, "solver timeout (s)")
+	tagsFlag := fs.String("tags", "", "override tag sets (semicolon separated)")
+	fs.StringVar(&repoDir, "repo", repoDir, "repository")
+	fs.Parse(args)
+	if t := os.Getenv("VERIF_TIER"); t != "" && *tier == "" {
+		*tier = t
+	}
+	seed := 0
+	if s := os.Getenv("VERIF_SEED"); s != "" {
+		seed, _ = strconv.Atoi(s)
+	}
+	t0 := time.Now()
+	smtDir = filepath.Join(verifDir, "out", "smt", *property+"-"+*tier)
+	os.RemoveAll(smtDir)
+	os.MkdirAll(smtDir, 0o755)
+	tsets := tagSets[*property]
+	if tsets == nil {
+		tsets = []string{"verif"}
+	}
+	if *tagsFlag != "" {
+		tsets = strings.Split(*tagsFlag, ";")
+	}
+	var all []*Obligation
+	var funcs []funcReport
+	var genErrs []string
+	trusted := map[string]bool{}
+	transp := map[string]bool{}
+	var progs []*Program
+	var smokes []*smoke
+	for _, tags := range tsets {
+		p, err := loadProgram(tags)
+		if err != nil {
+			genErrs = append(genErrs, fmt.Sprintf("load (%s): %v", tags, err))
+			continue
+		}
+		progs = append(progs, p)
+		rr := generate(p, *property, *only)
+		for _, ob := range rr.obs {
+			ob.Name = tags + ":" + ob.Name
+			p.instantiate(ob)
+		}
+		all = append(all, rr.obs...)
+		for _, sm := range rr.smokes {
+			sm.name = tags + ":" + sm.name
+		}
+		smokes = append(smokes, rr.smokes...)
+		funcs = append(funcs, rr.funcs...)
+		for _, e := range rr.errs {
+			genErrs = append(genErrs, "["+tags+"] "+e)
+		}
+		for k := range rr.trusted {
+			trusted[k] = true
+		}
+		for k := range rr.transp {
+			transp[k] = true
+		}
+		lob, lerr := p.lemmaObligations(*property)
+		for _, ob := range lob {
+			ob.Name = tags + ":" + ob.Name
+		}
+		if tags == tsets[0] {
+			all = append(all, lob...)
+			genErrs = append(genErrs, lerr...)
+		}
+	}
+	to := 10
+	if *tier == "thorough" {
+		to = 60
+	}
+	if *timeout > 0 {
+		to = *timeout
+	}
+	workers := 14
+	if *tier == "thorough" {
+		workers = 5
+	}
+	dischargeAll(all, *tier, to, workers)
+	vac := runSmokes(smokes, workers)
+	for _, v := range vac {
+		genErrs = append(genErrs, "vacuous hypotheses (contradictory contract/invariant): "+v)
+	}
+
+	// report
+	var failed []*Obligation
+	nTriv, nDis := 0, 0
+	for _, ob := range all {
+		switch ob.Result.Status {
+		case "trivial":
+			nTriv++
+		case "unsat":
+			nDis++
+		default:
+			failed = append(failed, ob)
+		}
+		if *verbose {
+			fmt.Printf("  %-8s %-7s %6.2fs %s\n", ob.Result.Status, ob.Result.Solver, ob.Result.Seconds, ob.Name)
+		}
+	}
+	violations := 0
+	exit := 0
+	kf := loadKnownFindings()
+	for _, e := range genErrs {
+		fmt.Printf("NOT-VERIFIED: %s\n", e)
+	}
+	if len(genErrs) > 0 {
+		// a function that cannot be processed is reported against the property: nothing is silently passed
+		path := writeReplay(*property, "generator", strings.Join(genErrs, "\n"), nil)
+		fmt.Printf("VIOLATION property=%s replay=%s obligation=generator-errors no-failing-input-found\n", *property, path)
+		violations++
+		exit = 1
+	}
+	for _, ob := range failed {
+		if k := kf.match(*property, ob); k != nil {
+			fmt.Printf("KNOWN-FINDING: property=%s %s\n", *property, k.what)
+			continue
+		}
+		path, confirmed := replayObligation(progs, *property, ob)
+		suffix := ""
+		if !confirmed {
+			suffix = " no-failing-input-found"
+		}
+		fmt.Printf("VIOLATION property=%s replay=%s obligation=%s status=%s%s\n", *property, path, ob.Name, ob.Result.Status, suffix)
+		violations++
+		exit = 1
+	}
+	// vacuity: obligation count must be non-zero
+	if len(all) == 0 && exit == 0 {
+		fmt.Printf("VIOLATION property=%s replay=%s obligation=none no-failing-input-found\n", *property,
+			writeReplay(*property, "vacuity", "no obligations were generated for this property", nil))
+		violations++
+		exit = 1
+	}
+	wall := time.Since(t0).Seconds()
+	fmt.Printf("property=%s tier=%s tags=%v functions=%d obligations=%d discharged=%d trivially_closed=%d failed=%d wall=%.1fs\n",
+		*property, *tier, tsets, len(funcs), len(all)-nTriv, nDis, nTriv, len(failed), wall)
+	if !*noEvidence && *only == "" {
+		writeEvidence(*property, *tier, seed, all, funcs, trusted, transp, nTriv, nDis, violations, wall, tsets, progs)
+	}
+	return exit
+}
+
+var nSmokes int
+
+func writeEvidence(property, tier string, seed int, all []*Obligation, funcs []funcReport, trusted, transp map[string]bool,
+	nTriv, nDis, violations int, wall float64, tsets []string, progs []*Program) {
+	var samples []interface{}
+	perKind := map[string]int{}
+	for _, ob := range all {
+		perKind[ob.Kind]++
+	}
+	sort.Slice(all, func(i, j int) bool { return all[i].Name < all[j].Name })
+	step := len(all)/12 + 1
+	for i := 0; i < len(all); i += step {
+		ob := all[i]
+		samples = append(samples, map[string]interface{}{"obligation": ob.Name, "kind": ob.Kind, "what": ob.Descr,
+			"status": ob.Result.Status, "solver": ob.Result.Solver, "smt_sha256_16": ob.Result.Hash, "goal": truncate(ob.Goal.String(), 300)})
+	}
+	var tb []string
+	for k := range trusted {
+		tb = append(tb, "assumed contract: "+k)
+	}
+	sort.Strings(tb)
+	tb = append(tb, "go/packages + go/ssa (x/tools v0.29.0) faithfully represent the compiled code",
+		"z3 4.8.12, z3-new 5.1.0, cvc5 1.0 are sound when they answer unsat",
+		"the VC generator (/verif/tool) itself")
+	var tl []string
+	for k := range transp {
+		tl = append(tl, k)
+	}
+	sort.Strings(tl)
+	stats.mu.Lock()
+	sv := map[string]interface{}{"wins": stats.wins, "solver_seconds": stats.seconds, "calls": stats.calls}
+	stats.mu.Unlock()
+	ev := evidence{PropertyID: property, Tier: tier, Seed: seed, Level: "proof", WallS: wall, Violations: violations,
+		Coverage: map[string]interface{}{
+			"obligations":         len(all) - nTriv,
+			"discharged":          nDis,
+			"trivially_closed":    nTriv,
+			"checker_cmd":         fmt.Sprintf("/verif/bin/stunvc check -property %s -tier %s", property, tier),
+			"trusted_base":        tb,
+			"functions":           funcs,
+			"obligations_by_kind": perKind,
+			"transparent_unfolded": tl,
+			"tag_sets":            tsets,
+			"solvers":             sv,
+			"integer_mode":        "mathematical Int with exact wrap-around for 8/16/32-bit and unsigned types; int/int64 unbounded",
+			"samples":             samples,
+			"bounded_standins":    []string{},
+			"vacuity_probes":      nSmokes,
+		},
+		Assumptions: assumptionList(progs),
+	}
+	os.MkdirAll(filepath.Join(verifDir, "evidence"), 0o755)
+	b, _ := json.MarshalIndent(ev, "", " ")
+	os.WriteFile(filepath.Join(verifDir, "evidence", property+".json"), b, 0o644)
+}
+
+func assumptionList(progs []*Program) []string {
+	out := []string{
+		"int/int64 arithmetic is treated as mathematical (no 64-bit overflow)",
+		"package-level error variables are distinct, non-nil and never reassigned",
+		"interior pointers passed as parameters do not alias other parameters' objects",
+		"goroutine interleavings, the Go memory model, stack depth, real time and the allocator are not modelled",
+		"externals terminate",
+	}
+	seen := map[string]bool{}
+	for _, p := range progs {
+		for _, fc := range p.spec.Funcs {
+			if fc.Trusted && p.trusted[fc.Name] && !seen[fc.Name] {
+				seen[fc.Name] = true
+				out = append(out, "trusted contract "+strings.Join(fc.Src, " ; "))
+			}
+		}
+		for _, ax := range p.spec.Axioms {
+			if !ax.Lemma && !seen["ax:"+ax.Name] {
+				seen["ax:"+ax.Name] = true
+				out = append(out, "spec axiom (definition) "+ax.Src)
+			}
+		}
+	}
+	sort.Strings(out[5:])
+	return out
+}
+
+func truncate(s string, n int) string {
+	if len(s) > n {
+		return s[:n] + "..."
+	}
+	return s
+}
+
+func cmdDump(args []string) int {
+	fs := flag.NewFlagSet("dump", flag.ExitOnError)
+	tags := fs.String("tags", "verif", "build tags")
+	fn := fs.String("func", "", "function key")
+	fs.Parse(args)
+	p, err := loadProgram(*tags)
+	if err != nil {
+		fmt.Fprintln(os.Stderr, err)
+		return 1
+	}
+	for _, pkg := range []string{pkgStun, pkgHmac} {
+		if f, ok := p.functions(pkg)[*fn]; ok {
+			f.WriteTo(os.Stdout)
+			fi := p.info(f)
+			fmt.Printf("loops (header block -> ordinal): %v\n", fi.headers)
+			return 0
+		}
+	}
+	fmt.Fprintln(os.Stderr, "no such function")
+	return 1
+}
